@@ -85,10 +85,56 @@ func runSolver(ctx context.Context, s solverSpec, file string, timeout time.Dura
 }
 
 // solveOne decides one obligation: quick attempt with z3-new, then a race of all solvers.
+// crossCheck (thorough tier): every discharged obligation is given to the solvers of the other
+// families as well. A second `unsat` is recorded; a `sat` from a complete configuration is a
+// disagreement and the obligation is reported as refuted; no answer leaves the first verdict.
+var crossCheck = false
+
+func secondOpinion(ob *Obligation, file string, timeout time.Duration) {
+	if ob.Status != "discharged" || ob.Expect != "unsat" || ob.Solver == "" || strings.HasPrefix(ob.Solver, "frame") || strings.HasPrefix(ob.Solver, "grammar") {
+		return
+	}
+	var others []solverSpec
+	switch {
+	case strings.HasPrefix(ob.Solver, "cvc5"):
+		others = []solverSpec{solvers[0], solvers[1], solvers[2]}
+	case strings.HasPrefix(ob.Solver, "z3 4.8"):
+		others = []solverSpec{solvers[3], solvers[0], solvers[1]}
+	default: // z3-new in either configuration, or a case split
+		others = []solverSpec{solvers[3], solvers[2]}
+	}
+	os.WriteFile(file, []byte(ob.Script), 0o644)
+	defer os.Remove(file)
+	ctx, cancel := context.WithCancel(context.Background())
+	defer cancel()
+	ch := make(chan solveResult, len(others))
+	for _, s := range others {
+		s := s
+		go func() { ch <- runSolver(ctx, s, file, timeout) }()
+	}
+	for range others {
+		r := <-ch
+		if r.verdict == "unsat" {
+			ob.Second = r.solver
+			return
+		}
+		if r.verdict == "sat" && r.solver != solvers[1].name {
+			ob.Status = "refuted"
+			ob.Output = "solvers disagree: " + ob.Solver + " answered unsat, " + r.solver + " answered sat\n" + r.out
+			ob.Model = r.out
+			ob.Solver = r.solver
+			return
+		}
+	}
+}
+
 func solveOne(ob *Obligation, dir string, quick, full time.Duration, twoUnsat bool) {
 	file := filepath.Join(dir, sanitize(ob.Name)+fmt.Sprintf("_%d.smt2", hashString(ob.Name)))
 	os.WriteFile(file, []byte(ob.Script+"(get-model)\n"), 0o644)
 	defer func() {
+		if crossCheck {
+			secondOpinion(ob, strings.TrimSuffix(file, ".smt2")+".second.smt2", quick)
+		}
 		if ob.Status == "discharged" && os.Getenv("GOVC_KEEP") == "" {
 			os.Remove(file)
 		}
